@@ -46,6 +46,9 @@ type ctx struct {
 	// other oracles of the case have been evaluated (so that a known finding
 	// does not mask the rest of the case).
 	soft *vk.Failure
+	// skippedSets counts (routine, pair) combinations for which the set of
+	// all shortest paths was not compared.
+	skippedSets int
 }
 
 func (k *ctx) softFail(f *vk.Failure) {
@@ -339,7 +342,7 @@ func (k *ctx) checkAlts(name string, sp path.ShortestAlts, s int, skipSelf bool)
 			return vk.Failf(name+"/to-unique", "%s: %s", k.where(name, s, t), r)
 		}
 		if !k.wantAllPaths(s, t) {
-			vk.Class("allpaths=skipped-set-unknown")
+			k.skippedSets++
 			continue
 		}
 		ps, aw := sp.AllTo(tid)
@@ -436,7 +439,7 @@ func (k *ctx) checkAll(name string, ap path.AllShortest, negCycles bool) *vk.Fai
 				return vk.Failf(name+"/between-unique", "%s: %s", k.where(name, s, t), r)
 			}
 			if !k.wantAllPaths(s, t) {
-				vk.Class("allpaths=skipped-set-unknown")
+				k.skippedSets++
 				continue
 			}
 			ps, aw := ap.AllBetween(sid, tid)
@@ -663,6 +666,11 @@ func checkStatic(c staticCase) *vk.Failure {
 				return f
 			}
 		}
+	}
+	if k.skippedSets > 0 {
+		vk.Class("allpaths=some-sets-not-compared")
+	} else {
+		vk.Class("allpaths=all-sets-compared")
 	}
 	return k.soft
 }
